@@ -22,21 +22,32 @@ def ref_counts(rows, lag, sliding, n):
     return C
 
 
-def impl_counts(rows, lag, sliding, max_n, form):
+def impl_counts(rows, lag, sliding, max_n, form, dtype='int64', lag_type='int', positional=False):
     from enspara import ra
     from enspara.msm.transition_matrices import assigns_to_counts
     if form == 'ragged':
-        a = ra.RaggedArray([np.array(r, dtype=int) for r in rows])
+        a = ra.RaggedArray([np.array(r, dtype=dtype) for r in rows])
+        snap = (a._data.tobytes(), a.lengths.tobytes())
     else:
         L = max(len(r) for r in rows)
-        a = -np.ones((len(rows), L), dtype=int)
+        a = -np.ones((len(rows), L), dtype=dtype)
         for i, r in enumerate(rows):
             a[i, :len(r)] = r
+        snap = (a.tobytes(),)
+    lg = np.int64(lag) if lag_type == 'np' else lag
+    mn = (np.int32(max_n) if (max_n is not None and lag_type == 'np') else max_n)
     try:
-        C = assigns_to_counts(a, lag_time=lag, max_n_states=max_n, sliding_window=sliding)
+        if positional:
+            C = assigns_to_counts(a, lg, mn, sliding)
+        else:
+            C = assigns_to_counts(a, lag_time=lg, max_n_states=mn, sliding_window=sliding)
     except Exception as e:  # noqa
         return {'error': type(e).__name__}
-    return {'ok': np.asarray(C.toarray()).tolist(), 'shape': list(C.shape)}
+    after = (a._data.tobytes(), a.lengths.tobytes()) if form == 'ragged' else (a.tobytes(),)
+    out = {'ok': np.asarray(C.toarray()).tolist(), 'shape': list(C.shape)}
+    if after != snap:
+        out['modified'] = True
+    return out
 
 
 def check_case(ctx, case, model_resp):
@@ -45,10 +56,18 @@ def check_case(ctx, case, model_resp):
     ref = ref_counts(rows, lag, sliding, n)
     npairs = int(ref.sum())
     forms = {}
+    dt = case.get('dtype', 'int64')
+    lt = case.get('lag_type', 'int')
+    pos = case.get('positional', False)
     for form in ('ragged', 'padded'):
-        forms[form] = impl_counts(rows, lag, sliding, max_n, form)
+        forms[form] = impl_counts(rows, lag, sliding, max_n, form, dt, lt, pos)
     perm = list(ctx.rng.permutation(len(rows)))
-    forms['permuted'] = impl_counts([rows[i] for i in perm], lag, sliding, max_n, 'ragged')
+    forms['permuted'] = impl_counts([rows[i] for i in perm], lag, sliding, max_n, 'ragged', dt, lt, pos)
+    ctx.tag('dtype=%s' % dt)
+    for form, got in forms.items():
+        if got.get('modified'):
+            ctx.violation('assigns_to_counts modified its input (%s form)' % form, dict(case, form=form))
+            return
     ctx.case(case, nontrivial=npairs > 0,
              tags=['lag=%d' % lag, 'sliding' if sliding else 'strided',
                    'short-row' if any(len(r) <= lag for r in rows) else 'all-long',
@@ -86,7 +105,34 @@ def check_case(ctx, case, model_resp):
                          dict(case, model=model_resp, impl=forms['ragged']))
 
 
+DTYPES = ['int64', 'int32', 'int16', 'int8']
+
+
+def gen_wide_case(rng):
+    """blind-spot families: many states (ids beyond 127 / 255 / 300), narrow dtypes, numpy-typed lag, positional call"""
+    dtype = ['int16', 'int32', 'int64'][int(rng.integers(0, 3))]
+    nstates = int(rng.choice([120, 128, 200, 256, 257, 300]))
+    nrows = int(rng.integers(1, 4))
+    rows = []
+    for _ in range(nrows):
+        L = int(rng.integers(1, 30))
+        rows.append([int(x) for x in rng.integers(max(0, nstates - 6), nstates, size=L)])
+    lag = int(rng.integers(1, 5))
+    mx = max(max(r) for r in rows) + 1
+    return {'rows': rows, 'lag': lag, 'sliding': bool(rng.integers(0, 2)),
+            'max_n': None if rng.random() < 0.5 else int(mx + rng.integers(0, 2)),
+            'dtype': dtype, 'lag_type': 'np' if rng.random() < 0.5 else 'int', 'positional': bool(rng.integers(0, 2))}
+
+
 def gen_case(rng, big=False):
+    c = _gen_case(rng, big)
+    c['dtype'] = DTYPES[int(rng.integers(0, len(DTYPES)))] if rng.random() < 0.5 else 'int64'
+    c['lag_type'] = 'np' if rng.random() < 0.2 else 'int'
+    c['positional'] = bool(rng.random() < 0.2)
+    return c
+
+
+def _gen_case(rng, big=False):
     nstates = int(rng.integers(1, 6))
     nrows = int(rng.integers(1, 6))
     maxlen = 14 if not big else 40
@@ -126,6 +172,7 @@ def slice_scope(ctx):
 def run(ctx):
     slice_scope(ctx)
     cases = [gen_case(ctx.rng) for _ in range(ctx.n(500, 6000))]
+    cases += [gen_wide_case(ctx.rng) for _ in range(ctx.n(40, 600))]
     if ctx.thorough:
         cases += [gen_case(ctx.rng, big=True) for _ in range(1000)]
         # every (len, lag) residue for single rows
@@ -168,6 +215,6 @@ def replay(ctx, data):
         if r.get('ok') != e:
             ctx.disagreement('Model.PySlice.indices vs CPython slice.indices', data)
         return
-    c = {k: data[k] for k in ('rows', 'lag', 'sliding', 'max_n')}
-    r = ctx.driver([dict(c, op='C03.counts')])[0]
+    c = {k: data[k] for k in ('rows', 'lag', 'sliding', 'max_n', 'dtype', 'lag_type', 'positional') if k in data}
+    r = ctx.driver([{'op': 'C03.counts', 'rows': c['rows'], 'lag': c['lag'], 'sliding': c['sliding'], 'max_n': c['max_n']}])[0]
     check_case(ctx, c, r)
